@@ -4,12 +4,13 @@ applied (git -C /repo apply; run; git -C /repo checkout -- .) and refreshes meta
 Prints a table. A patch that no longer applies to the current tree is reported as stale."""
 import os as _os
 RUNNER = _os.environ.get('MAMBACHECK_BIN', './run.sh')
+REPO = _os.environ.get('RECHECK_REPO', '/repo')  # a scratch worktree at /repo's HEAD (then MAMBACHECK_BIN must be the checker binary)
 import json, os, re, subprocess, glob, sys
-env = dict(os.environ, GOFLAGS='-mod=mod', GOPROXY='off', GOSUMDB='off', GOTOOLCHAIN='local')
+env = dict(os.environ, MAMBA_REPO=REPO, GOFLAGS='-mod=mod', GOPROXY='off', GOSUMDB='off', GOTOOLCHAIN='local')
 def sh(cmd, cwd):
     p = subprocess.run(cmd, shell=True, cwd=cwd, env=env, capture_output=True, text=True)
     return p.returncode, p.stdout + p.stderr
-rc, st = sh('git status --short', '/repo'); assert st.strip() == '', '/repo is dirty'
+rc, st = sh('git status --short', REPO); assert st.strip() == '', '/repo is dirty'
 only = [a for a in sys.argv[1:] if not a.startswith('--')]
 ALLP = [c['property_id'] for c in json.load(open('/verif/MANIFEST.json'))['checks']]
 rows = []
@@ -18,16 +19,16 @@ for d in sorted(glob.glob('/verif/seeded/*/')):
     if only and name not in only: continue
     meta = json.load(open(d + 'meta.json'))
     prop = meta['property']
-    rc, out = sh(f'git apply --check {d}patch.diff', '/repo')
+    rc, out = sh(f'git apply --check {d}patch.diff', REPO)
     threeway = False
     if rc != 0:
-        rc, out = sh(f'git apply --3way --check {d}patch.diff', '/repo'); threeway = rc == 0
+        rc, out = sh(f'git apply --3way --check {d}patch.diff', REPO); threeway = rc == 0
     if rc != 0:
         meta['check']['stale'] = 'patch does not apply to the current tree'
         rows.append((name, 'STALE', ''))
         json.dump(meta, open(d + 'meta.json', 'w'), indent=1)
         continue
-    sh(f'git apply {"--3way " if threeway else ""}{d}patch.diff', '/repo')
+    sh(f'git apply {"--3way " if threeway else ""}{d}patch.diff', REPO)
     others = []
     try:
         rc_chk, out_chk = sh(f'{RUNNER} {prop} quick', '/verif')
@@ -38,13 +39,13 @@ for d in sorted(glob.glob('/verif/seeded/*/')):
                 if rc2 == 1:
                     others.append({'property': p2, 'finding_keys': re.findall(r'\[([A-Z-]+:.*?)\] ', out2)[:3]})
     finally:
-        sh('git reset -q --hard HEAD && git clean -fdq', '/repo')
-        sh('git clean -fdq', '/repo')
+        sh('git reset -q --hard HEAD && git clean -fdq', REPO)
+        sh('git clean -fdq', REPO)
     keys = re.findall(r'\[([A-Z-]+:.*?)\] ', out_chk)
     detected = rc_chk == 1 and ('VIOLATION property=' + prop) in out_chk
     meta['check'] = {'command': f'./run.sh {prop} quick', 'exit_code': rc_chk, 'detected': detected, 'finding_keys': keys[:8]}
     if '--all' in sys.argv: meta['also_reported_by_other_checks'] = others
     json.dump(meta, open(d + 'meta.json', 'w'), indent=1)
     rows.append((name, 'caught' if detected else ('undecided' if rc_chk == 2 else 'missed'), '; '.join(keys[:2]) + ('   [other checks: ' + ', '.join(o['property'] for o in others) + ']' if others else '')))
-rc, st = sh('git status --short', '/repo'); assert st.strip() == '', st
+rc, st = sh('git status --short', REPO); assert st.strip() == '', st
 for r in rows: print('%-8s %-10s %s' % r)
